@@ -325,3 +325,5 @@ func verifC19Two(nBackends int) {
 
 func VerifC19_Two1() { verifC19Two(1) }
 func VerifC19_Two2() { verifC19Two(2) }
+
+func VerifC19_Two3() { verifC19Two(3) }
